@@ -129,3 +129,22 @@ SPECS["C18"] = {
     "outside": "frame_pixel_data on objects, From<Vec<Fragments>>, the fragment-count arithmetic at full width (f32), Encapsulated Pixel Data Value Total Length in transcode.rs (global registry + file object)",
     "assumptions": ["a fragment occupies 8 header bytes plus its data padded to even length when written (PS3.5 A.4)"],
 }
+
+SPECS["C21"] = {
+    "parts": [{"engine": "kani", "group": "enc", "select": r"^c21_", "mem_gb": 8, "timeout": {"quick": 1200, "thorough": 2400}}],
+    "functions": ["dicom_encoding::adapters::PixelDataObject::frame_pixel_data (default method: native branch incl. 1-bit, fragment/offset-table branch)",
+                  "adapters::determine_bytes_per_native_frame"],
+    "bounds": "native: bits allocated 8/16 with 1 or 3 samples, rows and columns symbolic 1-4, frames 0-3 of a 40-48 byte pixel data element; 1-bit: rows and columns symbolic 1-17, frames 0-6, "
+              "40 bytes; encapsulated: 3 fragments of 2/4/2 bytes over 2 frames with both possible splits; all pixel bytes symbolic",
+    "outside": "PixelDecoder::decode_pixel_data / decode_pixel_data_frame (1-bit expansion to 0/255 is inline in a 130-line method of the file object implementation that needs the global registry: no callable unit)",
+    "assumptions": ["harness implementation of the PixelDataObject trait (the default method under test is the repository's)"],
+}
+
+SPECS["C16"] = {
+    "parts": [{"engine": "m", "module": "c16"}],
+    "bounds": "capability predicates: every codec shape (symbolic discriminants); registry contents: all entries under the default feature set and under native+deflate "
+              "(the tools' codec features); padded lookup: 0-2 symbolic trailing bytes from {space, NUL} for 14 seed-rotated entries (thorough: all)",
+    "outside": "feature sets other than default and native+deflate (jpeg2000, jpeg-ls, jpeg-xl bindings need system libraries); registration order effects of the inventory-based registry",
+    "assumptions": ["registry contents are read through the public API of the real registry (native oracle) and the lookup is re-executed from the MIR of TransferSyntaxRegistryImpl::get over those keys; "
+                    "contracts: HashMap::get as a finite map, char::is_whitespace on the Latin-1 range"],
+}
